@@ -53,6 +53,10 @@ FIELD_TYPES = {
     ('pjrpc.client.integrations.pytest:PjRpcMocker', '_matches'): 'ddict[ddict[list[=pjrpc.client.integrations.pytest:Match]]]',
     ('pjrpc.client.integrations.pytest:PjRpcMocker', '_calls'): 'ddict[dict[=UserMock]]',
     ('pjrpc.client.integrations.pytest:PjRpcMocker', '_mocker'): '=UserMockModule',
+    ('pjrpc.client.integrations.pytest:PjRpcMocker', '_patcher'): 'opt:=UserPatcher',
+    ('pjrpc.client.integrations.pytest:PjRpcMocker', '_passthrough'): 'bool',
+    ('pjrpc.client.integrations.pytest:PjRpcMocker', '_async_resp'): 'bool',
+    ('builtins:UserClientObject', '_endpoint'): 'str',
     ('pjrpc.client.integrations.pytest:Match', 'once'): 'bool',
     ('pjrpc.client.integrations.pytest:Match', 'callback'): 'opt:=UserMockCallback',
     ('pjrpc.client.integrations.pytest:Match', 'response_data'): '=dict',
@@ -71,6 +75,8 @@ FIELD_TYPES = {
 ORACLE_METHODS = {
     # the mocking package handed to the pytest mocker (unittest.mock / pytest-mock): MagicMock(...) gives a new mock
     'UserMockModule': {'MagicMock': {'returns': '=UserMock', 'raises': ()}},
+    # the active patcher of the pytest mocker: temp_original is the real (un-patched) transport method
+    'UserPatcher': {'temp_original': {'returns': 'any', 'raises': ('Exception',)}},
     # schema extractors are user-extensible: whatever class implements them, the per-method hooks return UNSET or a
     # list (of error classes) / a string and have no effect the library can observe (A-user)
     'UserSchemaExtractor': {'extract_errors': {'returns': 'any', 'raises': (), 'returned_invariant': 'spec.specs:errors_result_ok'},
